@@ -14,6 +14,7 @@ RULE = ('all 256 initial bytes x follow bytes (all-zero / all-ff / boundary valu
 EXHAUSTIVE = {'quick': 'all 256 initial bytes x 5 entry points x {no follow bytes, exact, truncated by 1}',
               'thorough': 'all 256 initial bytes x 5 entry points x {no follow bytes, exact, truncated by 1}'}
 OPS = ['cbor.dec.uint', 'cbor.dec.arr', 'cbor.dec.map', 'cbor.dec.bytes', 'cbor.dec.text']
+SLOW_OPS = {'cbor.rt.big': 60000}      # watchdog (ms) for ops of this family wherever they run (the family itself, the corpus)
 
 agree = Base.agree; nontrivial = Base.nontrivial; signature = Base.signature; explain = Base.explain
 
@@ -298,7 +299,7 @@ def big_round_trip(ctx):
     nchunk = 6          # (a batch of fewer than 200 ops runs in one harness process: split by hand, large and small sizes mixed)
     chunks = [ops[k::nchunk] for k in range(nchunk)]
     goenv = ctx.goenv      # ~1 s per 32 MiB on an idle machine; a loaded machine must not turn the watchdog into a verdict
-    ctx.goenv = dict(goenv, VERIF_OP_TIMEOUT_MS=str(max(60000, int(goenv.get('VERIF_OP_TIMEOUT_MS', '4000')))))
+    ctx.goenv = dict(goenv, VERIF_OP_TIMEOUT_MS=str(max(SLOW_OPS['cbor.rt.big'], int(goenv.get('VERIF_OP_TIMEOUT_MS', '4000')))))
     try:
         with ThreadPoolExecutor(nchunk) as tp:
             results = list(tp.map(ctx.go, chunks))
@@ -306,4 +307,5 @@ def big_round_trip(ctx):
         ctx.goenv = goenv
     for ch, rs in zip(chunks, results):
         for op, r in zip(ch, rs):
+            ctx.confirm_ms[op] = 600000
             ctx.records.append((op, r or 'crash', 'same'))
